@@ -11,104 +11,7 @@
 #include <string.h>
 #include <dlfcn.h>
 
-#define MAXSTR 16
-typedef struct {
-    cfg_t c; int desc; code_t cd; char ck[96];
-    int nstr; stripe_t st[MAXSTR]; uint8_t *data[MAXSTR]; int kind[MAXSTR];
-} ctx_t;
-
-static const char *PROP;
-
-/* ---------------------------------------------------------------- set-up */
-static int ctx_open(ctx_t *x, const cfg_t *c, const uint64_t *lens, const int *kinds, int nlen)
-{
-    memset(x, 0, sizeof *x);
-    x->c = *c; x->desc = -1;
-    cfg_key(c, x->ck, sizeof x->ck);
-    code_init(&x->cd, c);
-    if (mon_case_all("%s|create", x->ck)) {
-        x->desc = lec_create(c);
-        if (x->desc <= 0)
-            mon_viol(PROP, "create-failed", "instance_create for a supported configuration returned %d", x->desc);
-        mon_end();
-    }
-    if (x->desc <= 0) return -1;
-    if (nlen > MAXSTR) nlen = MAXSTR;
-    for (int i = 0; i < nlen; i++) {
-        int ok = 0;
-        if (mon_case_all("%s|encode|len=%llu|data=%s", x->ck, (unsigned long long)lens[i], data_kind_name(kinds[i]))) {
-            rng_t r; rng_seed(&r, MO.seed, mon_hash_str(x->ck, lens[i] * 31 + (uint64_t)kinds[i]));
-            uint8_t *d = malloc(lens[i] ? lens[i] : 1);
-            data_fill(d, lens[i], kinds[i], &r, c->k, ref_payload_size(c->be, c->k, lens[i]));
-            stripe_t *s = &x->st[x->nstr];
-            int rc = stripe_make(s, x->desc, c, d, lens[i]);
-            if (rc != 0) {
-                mon_viol(PROP, "encode-failed", "encode of %llu bytes returned %d", (unsigned long long)lens[i], rc);
-                free(d);
-            } else {
-                /* the stripe the library produced must be the reference stripe (C07 oracle):
-                 * keeps every later comparison anchored to an independent model */
-                uint64_t ef = model_fragment_len(c, lens[i]);
-                if (s->flen != ef)
-                    mon_viol(PROP, "encode-fragment-length", "fragment_len %llu, model %llu", (unsigned long long)s->flen, (unsigned long long)ef);
-                else if (c->be != EC_BACKEND_NULL) {
-                    uint8_t *exp[64];
-                    for (int f = 0; f < s->n; f++) exp[f] = malloc(ef);
-                    model_stripe(c, d, lens[i], 0, exp);
-                    for (int f = 0; f < s->n; f++) {
-                        if (memcmp(exp[f], s->frag[f], ef)) {
-                            uint64_t off = 0; while (exp[f][off] == s->frag[f][off]) off++;
-                            mon_viol(PROP, "encode-differs-from-model", "fragment %d differs from the reference serializer at byte %llu (len=%llu): got %02x want %02x",
-                                     f, (unsigned long long)off, (unsigned long long)lens[i], s->frag[f][off], exp[f][off]);
-                            break;
-                        }
-                    }
-                    for (int f = 0; f < s->n; f++) free(exp[f]);
-                }
-                x->data[x->nstr] = d; x->kind[x->nstr] = kinds[i];
-                x->nstr++; ok = 1;
-            }
-            mon_end();
-        }
-        (void)ok;
-    }
-    return x->nstr > 0 ? 0 : -1;
-}
-
-static void ctx_close(ctx_t *x)
-{
-    for (int i = 0; i < x->nstr; i++) { stripe_free(&x->st[i]); free(x->data[i]); }
-    if (x->desc > 0) {
-        if (mon_case_all("%s|destroy", x->ck)) {
-            int rc = liberasurecode_instance_destroy(x->desc);
-            if (rc != 0) mon_viol(PROP, "destroy-failed", "instance_destroy returned %d", rc);
-            mon_end();
-        }
-    }
-}
-
-/* standard stripe set for a config: lengths x data kinds */
-static int std_lengths(const cfg_t *c, uint64_t *lens, int *kinds, int max, int few)
-{
-    rng_t r; rng_seed(&r, MO.seed, (uint64_t)(c->be * 1000003 + c->k * 1009 + c->m * 31 + c->hd));
-    uint64_t A = (uint64_t)c->k * (uint64_t)ref_word_bytes(c->be);
-    uint64_t all[32];
-    int n = lengths_for(A, MO.thorough, &r, all, 32);
-    int out = 0;
-    if (few) {
-        /* unaligned small, aligned, one random */
-        uint64_t pick[4] = { A + 1, 16 * A, all[n - 1], 0 };
-        int np = few < 4 ? few : 4;
-        for (int i = 0; i < np && out < max; i++) { lens[out] = pick[i]; kinds[out] = i == 1 ? DATA_HIGH : DATA_RANDOM; out++; }
-        return out;
-    }
-    for (int i = 0; i < n && out < max; i++) {
-        lens[out] = all[i];
-        kinds[out] = (i % 4 == 3) ? 1 + (int)rng_below(&r, DATA_KINDS - 1) : DATA_RANDOM;
-        out++;
-    }
-    return out;
-}
+#define PROP LEC_PROP
 
 /* ---------------------------------------------------------------- erasure sets */
 static uint64_t binom(int n, int k) { if (k < 0 || k > n) return 0; uint64_t r = 1; for (int i = 1; i <= k; i++) r = r * (uint64_t)(n - k + i) / (uint64_t)i; return r; }
@@ -653,7 +556,11 @@ static void check_needed(ctx_t *x, const int *R, int nr, const int *X, int nx, i
             if (!bad && (seen & xm)) { mon_viol(PROP, "needed-contains-excluded", "answer 0x%x contains an excluded fragment (X=0x%x)", seen, xm); bad = 1; }
             if (!bad) {
                 int sel[32]; int ns = list_of(seen, n, sel);
-                for (int i = 0; i < nr; i++)
+                /* ISA-L Vandermonde shapes that are not MDS: the adapter's "first k survivors" may be a
+                 * singular row set; C19 only speaks about survivor sets whose rows are invertible */
+                int exempt = x->c.be == EC_BACKEND_ISA_L_RS_VAND && ns == k && code_rank(&x->cd, sel, ns) < k;
+                if (exempt) mon_count("needed_singular_firstk_not_required", 1);
+                for (int i = 0; i < nr && !exempt; i++)
                     if (!code_spans(&x->cd, sel, ns, R[i])) { mon_viol(PROP, "needed-insufficient", "fragment %d cannot be computed from the returned set 0x%x", R[i], seen); bad = 1; break; }
                 if (!bad && cfg_is_rs(&x->c) && len != k) { mon_viol(PROP, "needed-wrong-count", "Reed-Solomon answer has %d indexes, k=%d", len, k); bad = 1; }
                 /* follow-up: reconstruct each requested fragment from exactly N where the front end allows it */
@@ -1024,7 +931,7 @@ static void run_isal_faults(void)
 int main(int argc, char **argv)
 {
     mon_init(argc, argv);
-    PROP = MO.prop;
+    LEC_PROP = MO.prop;
     char err[256];
     if (xor_golden_selfcheck(err, sizeof err)) { mon_logf("HARNESS golden XOR tables failed their self-check: %s", err); mon_finish(); return 2; }
     int need_isal = !strcmp(PROP, "C19");
